@@ -28,7 +28,9 @@ SHAPES = [
 SEQ_ONLY = {"cs_r", "csm_w", "csv_r", "dr_r", "dr", "e_dr"}          # no ParJoin
 NO_GET = {"csv_r", "dr_r", "dr", "e_dr", "csm_w", "e_rsm"}           # no lend_get in the harness
 NO_LEND = {"e_rsm", "dr", "e_dr"}
-VEC_BACKED_MAX = 262143
+VEC_BACKED_MAX = 300000          # positions backed by VecStorage / DefaultVecStorage
+VEC_POS = {0, 4, 5, 9, 10, 14, 16}  # member positions whose storage is vector-backed (see join_dom.rs by_pos)
+AROUND_TOP = [262142, 262143, 262144, 262145, 266240]   # both sides of the 64^3 boundary
 
 # indices with all base-64 digits in {0, 63}: every one sits on a layer boundary
 B3 = [0, 63, 4032, 4095, 258048, 258111, 262080, 262143]
@@ -70,7 +72,7 @@ def mk_script(tid, shape, kinds, variant, masks, rng, n_ent, n_raised=0, dead=()
     members = []
     for k, kind in enumerate(kinds):
         ids = list(masks[k % len(masks)])
-        if kind in ("r", "w", "n", "m", "mw", "rs", "rsm", "dr", "cs", "csm", "csv"):
+        if kind in ("r", "w", "n", "m", "mw", "rs", "rsm", "dr", "cs", "csm", "csv") and (k in VEC_POS or shape == "r_fr"):
             ids = [i for i in ids if i <= VEC_BACKED_MAX]
         m = {"ids": ids}
         if kind in ("band", "bor", "bxor"):
@@ -110,6 +112,11 @@ def gen_scripts(seed, tier, want_par):
         for _ in range(10 if tier == "quick" else 120):
             a = [u for u in B4 if rng.random() < 0.5]
             b = [u for u in B4 if rng.random() < 0.6]
+            combos.append((a, b))
+        for _ in range(6 if tier == "quick" else 60):
+            pool = B3[:4] + AROUND_TOP
+            a = [u for u in pool if rng.random() < 0.7]
+            b = [u for u in pool if rng.random() < 0.8]
             combos.append((a, b))
         # dense low indices with real entities, some dead, some created atomically and not yet merged
         for _ in range(12 if tier == "quick" else 150):
